@@ -479,3 +479,48 @@ mut("C09", "reset_after_receive", "the reset sets run after ClientSet::Receive",
                     ),"""))
 mut("C09", "server_reset_not_on_stop", "server reset gated by server_running", ["server::reset/runs-on-stop", "reset-on-stop", "reset-system"],
     ("src/server.rs", "reset.run_if(server_just_stopped),", "reset.run_if(server_running),"))
+
+# ------------------------------------------------------------------ C07
+SE = "src/shared/event/server_event.rs"
+mut("C07", "broadcast_ignores_authorization", "dependent broadcast events are sent to clients without tick state", ["guarded-by-ticks-Some", "unclassified", "classified"],
+    (SE, """                            if let Some(ticks) = ticks {
+                                event.send(server, client_entity, ticks)?;
+                            } else {
+                                debug!(
+                                    "ignoring broadcast for channel {} for non-authorized client `{client_entity}`",
+                                    event.channel_id
+                                );
+                            }""", """                            if let Some(ticks) = ticks {
+                                event.send(server, client_entity, ticks)?;
+                            } else {
+                                let message = event.message.get_bytes(Default::default())?;
+                                server.send(client_entity, event.channel_id, message);
+                            }"""))
+mut("C07", "direct_uses_default_ticks", "direct events fall back to default ticks for unauthorized clients", ["guarded-by-ticks-Some", "ticks-belong-to-recipient"],
+    (SE, """                                if let Some(ticks) = ticks {
+                                    event.send(server, client_entity, ticks)?;
+                                } else {
+                                    error!(""", """                                let default_ticks = ClientTicks::default();
+                                if let Some(ticks) = ticks.or(Some(&default_ticks)) {
+                                    event.send(server, client_entity, ticks)?;
+                                } else {
+                                    error!("""))
+mut("C07", "authorized_components_required_by_connected_client", "Updates/Mutations become part of every connected client under AuthMethod::Custom", ["required-only-by-AuthorizedClient"],
+    ("src/server.rs", "            AuthMethod::Custom => (),\n        }\n    }\n\n    fn finish", "            AuthMethod::Custom => {\n                app.register_required_components::<ConnectedClient, Updates>();\n                app.register_required_components::<ConnectedClient, Mutations>();\n            }\n        }\n    }\n\n    fn finish"))
+mut("C07", "independent_flag_ignored", "every server event is sent immediately to all connected clients", ["independent-only-when-flagged", "dependent-events-buffered"],
+    (SE, "            if self.independent {\n                unsafe {\n                    self.send_independent_event", "            if self.independent || self.channel_id > 100 {\n                unsafe {\n                    self.send_independent_event"))
+mut("C07", "event_constructed_independent", "server events start out independent", ["constructed-dependent"],
+    (SE, "            independent: false,\n            events_id,", "            independent: true,\n            events_id,"))
+mut("C07", "updates_sent_to_wrong_entity", "update message of one client goes to another entity", ["recipient-is-buffer-owner", "sends-to-given-client"],
+    ("src/server/replication_messages/updates.rs", "        server.send(client, ServerChannel::Updates, message);", "        server.send(Entity::PLACEHOLDER, ServerChannel::Updates, message);"))
+mut("C07", "new_unclassified_send_site", "connection greeting sent to every connected client", ["classified"],
+    ("src/server.rs", """    debug!("client `{}` connected", trigger.target());
+    buffered_events.exclude_client(trigger.target());
+}""", """    debug!("client `{}` connected", trigger.target());
+    buffered_events.exclude_client(trigger.target());
+}
+
+#[allow(dead_code)]
+fn greet(server: &mut RepliconServer, client: Entity) {
+    server.send(client, crate::shared::backend::channels::ServerChannel::Updates, Vec::new());
+}"""))
